@@ -164,8 +164,9 @@ impl CompressionCodecState {
 						.map_err(|deflate_error| error("Bzip2", &deflate_error))?;
 					let written = compress.total_in() as usize - before_in;
 					match status {
-						bzip2::Status::MemNeeded => {
-							// There may be more to write.
+						bzip2::Status::MemNeeded | bzip2::Status::FinishOk => {
+							// There is more to write (`FinishOk` means that finishing is
+							// in progress, not that it is done: that is `StreamEnd`).
 							// That may be true even if the input is empty, because bzip2
 							// may have buffered some input.
 							input = &input[written..];
@@ -177,7 +178,7 @@ impl CompressionCodecState {
 								&format_args!("got unexpected status from bzip2: {status:?}"),
 							));
 						}
-						bzip2::Status::FinishOk | bzip2::Status::StreamEnd => {
+						bzip2::Status::StreamEnd => {
 							assert_eq!(input.len(), written);
 							*len = compress.total_out() as usize;
 							break;
